@@ -1,6 +1,6 @@
 // range_api.rs -- the `Range` API as unit lazyrange consumes it: real items + spec functions + ASSUMED contracts.
 // Spec function names and shapes are those of units/range/unit.rs (h, w, wf, nonempty, lo, hi, has, at, p, v, lawful, dflt,
-// rows_sorted, cell_at, lastw, is_bbox), where `Range::new`, `from_sparse`, `start`, `end`, `is_empty`, `empty`, `get_value` are PROVED
+// cell_at, lastw, is_bbox), where `Range::new`, `from_sparse`, `start`, `end`, `is_empty`, `empty`, `get_value` are PROVED
 // against these very clauses on the real text. Here the heavy bodies are `external_body` (assumed), so that this unit only depends on
 // the contract. Reconciliation = textual comparison of the clause text of the two units.
 
@@ -20,7 +20,7 @@ impl<T: CellType> Range<T> {
     /// representation invariant
     pub closed spec fn wf(&self) -> bool {
         self.inner@.len() == 0 || (self.start.0 <= self.end.0 && self.start.1 <= self.end.1
-            && self.h() <= u32::MAX && self.w() <= u32::MAX && self.inner@.len() == self.h() * self.w())
+            && self.inner@.len() == self.h() * self.w())
     }
     pub closed spec fn nonempty(&self) -> bool { self.inner@.len() > 0 }
     pub closed spec fn lo(&self) -> (u32, u32) { self.start }
@@ -44,10 +44,6 @@ impl<T: CellType> Cell<T> {
     pub closed spec fn v(&self) -> T { self.val }
 }
 
-/// documented precondition of from_sparse: "sorted by row" as far as the code relies on it -- first/last row are min/max
-pub closed spec fn rows_sorted<T: CellType>(cs: Seq<Cell<T>>) -> bool {
-    forall|i: int| 0 <= i < cs.len() ==> cs[0].pos.0 <= (#[trigger] cs[i]).pos.0 <= cs[cs.len() - 1].pos.0
-}
 pub closed spec fn cell_at<T: CellType>(c: Cell<T>, r: int, co: int) -> bool { c.pos.0 == r && c.pos.1 == co }
 /// index of the last of the first k cells that sits at (r, co); -1 if none
 pub closed spec fn lastw<T: CellType>(cs: Seq<Cell<T>>, k: int, r: int, co: int) -> int
@@ -75,8 +71,8 @@ proof fn lemma_lastw<T: CellType>(cs: Seq<Cell<T>>, k: int, r: int, co: int)
     if k > 0 { lemma_lastw(cs, k - 1, r, co); }
 }
 
-/// `r` is the range `from_sparse` builds from `cs` -- the conjunction of the six C05.sparse_* clauses below (C05: "for row-sorted
-/// cells: empty iff no cells; else bounds == tight bounding box, at(p) == value of the last cell at p, default elsewhere")
+/// `r` is the range `from_sparse` builds from `cs` (cells in any order) -- the conjunction of the six C05.sparse_* clauses below (C05:
+/// "empty iff no cells; else bounds == tight bounding box, at(p) == value of the last cell at p, default elsewhere")
 pub open spec fn sparse_of<T: CellType>(r: Range<T>, cs: Seq<Cell<T>>) -> bool {
     &&& r.wf()
     &&& (r.nonempty() <==> cs.len() > 0)
@@ -165,14 +161,10 @@ impl<T: Clone> Clone for Range<T> {
 //@@ sig
     requires self.wf(),
 //@@ end
-// ASSUMED here (external_body), PROVED in unit range (clauses C05.sparse_*): Range::from_sparse.
-// Documented precondition ("cells: Vec of non empty Cells, sorted by row"; "panics when a Cell row is lower than the first Cell row or
-// bigger than the last Cell row"): rows_sorted.
+// ASSUMED here (external_body), PROVED in unit range (clauses C05.sparse_*): Range::from_sparse. No precondition: the cells may come in
+// any order (row and column bounds are the minimum / maximum over all cells).
 //@@ fn src/lib.rs Range::from_sparse props=C05 ret=r external_body
 //@@ sig
-    requires
-        //# C06.from_sparse_rows_sorted
-        rows_sorted(cells@),
     ensures
         sparse_of(r, cells@),
 //@@ end
@@ -188,10 +180,6 @@ impl<T: Clone> Clone for Range<T> {
         start.0 <= end.0,
         //# C08.range_window_cols_ordered
         start.1 <= end.1,
-        // as in unit range: the u32 cell count of Range::new must not overflow (`(end.0 - start.0 + 1) * (end.1 - start.1 + 1)` is computed
-        // in u32: known finding of unit range on Range::new)
-        //# C08.range_window_cell_count_fits_u32
-        (end.0 - start.0 + 1) * (end.1 - start.1 + 1) <= u32::MAX,
     ensures
         window_of(r, *self, start, end),
 //@@ end
